@@ -1,5 +1,5 @@
 """Capture a minimal replay for a finding on a given tree.
-usage: PGPSIM_REPO=/tmp/pgpy-base tools/capture.py PROP SIGPREFIX OUTFILE [maxindex] [tier]"""
+usage: PGPSIM_REPO=/tmp/pgpy-base tools/capture.py PROP SIGPREFIX OUTFILE [maxindex] [tier] [required-probe]"""
 import sys, os, json
 repo = os.environ.get('PGPSIM_REPO', '/repo')
 sys.path[:0] = ['/verif', repo]
@@ -7,11 +7,12 @@ from pgpsim import core, minimise
 prop, prefix, out = sys.argv[1].upper(), sys.argv[2], sys.argv[3]
 maxi = int(sys.argv[4]) if len(sys.argv) > 4 else 2000
 tier = sys.argv[5] if len(sys.argv) > 5 else 'quick'
+need = sys.argv[6] if len(sys.argv) > 6 else None
 for i in range(maxi):
     case = core.generate_case(prop, tier, 0, i)
     res = core.run_case(prop, case, collect_all=True)
     hit = [v for v in res['all_violations'] if v[0].startswith(prefix)]
-    if not hit:
+    if not hit or (need and not res['probes'].get(need)):
         continue
     masked = sorted(set(v[0] for v in res['all_violations'] if not v[0].startswith(prefix)))
     # the first violation reached (with the others masked) must be ours
